@@ -1,6 +1,7 @@
 package credentials
 
 import (
+	"github.com/jcmturner/gokrb5/v8/types"
 	"github.com/jcmturner/gokrb5/v8/zzverif"
 )
 
@@ -18,4 +19,241 @@ func VH_C04_CCacheUnmarshal() {
 	c := new(CCache)
 	c.Unmarshal(b)
 	zzverif.Reach("returned")
+}
+
+// ---- C15: a file rendered by an independent writer (MIT ccache format description) parses to the model ---
+
+type vhPrinc struct {
+	nameType uint32
+	realm    string
+	comps    []string
+}
+type vhAddr struct {
+	typ  uint16
+	data []byte
+}
+type vhCred struct {
+	client, server vhPrinc
+	keyType        uint16
+	key            []byte
+	times          [4]uint32
+	isSKey         byte
+	flags          [4]byte
+	addrs          []vhAddr
+	authdata       []vhAddr
+	ticket, second []byte
+}
+
+type vhW struct {
+	b   []byte
+	ver int
+}
+
+func (w *vhW) u16(v uint16) {
+	if w.ver <= 2 { // versions 1 and 2 use native byte order: this build is little-endian
+		w.b = append(w.b, byte(v), byte(v>>8))
+	} else {
+		w.b = append(w.b, byte(v>>8), byte(v))
+	}
+}
+func (w *vhW) u32(v uint32) {
+	if w.ver <= 2 {
+		w.b = append(w.b, byte(v), byte(v>>8), byte(v>>16), byte(v>>24))
+	} else {
+		w.b = append(w.b, byte(v>>24), byte(v>>16), byte(v>>8), byte(v))
+	}
+}
+func (w *vhW) data(d []byte) { w.u32(uint32(len(d))); w.b = append(w.b, d...) }
+func (w *vhW) princ(p vhPrinc) {
+	if w.ver != 1 {
+		w.u32(p.nameType)
+	}
+	n := len(p.comps)
+	if w.ver == 1 {
+		n++ // version 1 counts the realm as a component
+	}
+	w.u32(uint32(n))
+	w.data([]byte(p.realm))
+	for _, c := range p.comps {
+		w.data([]byte(c))
+	}
+}
+
+func vhAnyPrinc(maxC, slen int) vhPrinc {
+	p := vhPrinc{nameType: zzverif.Uint32(), realm: zzverif.String(slen)}
+	nc := zzverif.Choose(0, maxC)
+	for i := 0; i < nc; i++ {
+		p.comps = append(p.comps, zzverif.String(slen))
+	}
+	return p
+}
+
+func vhPrincEq(p principal, m vhPrinc, ver int) bool {
+	ok := zzverif.And(p.Realm == m.realm, len(p.PrincipalName.NameString) == len(m.comps))
+	if len(p.PrincipalName.NameString) != len(m.comps) {
+		return false
+	}
+	for i := range m.comps {
+		ok = zzverif.And(ok, p.PrincipalName.NameString[i] == m.comps[i])
+	}
+	if ver != 1 {
+		ok = zzverif.And(ok, uint32(p.PrincipalName.NameType) == m.nameType)
+	}
+	return ok
+}
+
+func VH_C15_IndependentWriter() {
+	ver, ncred, maxC, slen, klen := zzverif.Param("version"), zzverif.Param("creds"), zzverif.Param("comps"), zzverif.Param("slen"), zzverif.Param("klen")
+	maxA, tlen, nhdr, conf := zzverif.Param("addrs"), zzverif.Param("tlen"), zzverif.Param("hdr"), zzverif.Param("conf")
+	w := &vhW{ver: ver}
+	w.b = append(w.b, 5, byte(ver))
+	var offset []byte
+	if ver == 4 {
+		// header: 16-bit total length, then fields (16-bit tag, 16-bit length, data); tag 1 = KDC time offset (8 bytes)
+		w.u16(uint16(12 * nhdr))
+		for i := 0; i < nhdr; i++ {
+			w.u16(1)
+			w.u16(8)
+			offset = zzverif.Bytes(8)
+			w.b = append(w.b, offset...)
+		}
+	}
+	def := vhAnyPrinc(maxC, slen)
+	w.princ(def)
+	var creds []vhCred
+	for i := 0; i < ncred; i++ {
+		var c vhCred
+		c.client, c.server = vhAnyPrinc(maxC, slen), vhAnyPrinc(maxC, slen)
+		if i == conf-1 {
+			c.server.realm = "X-CACHECONF:" // a configuration entry
+		}
+		c.keyType = zzverif.Uint16()
+		c.key = zzverif.Bytes(klen)
+		for j := range c.times {
+			c.times[j] = zzverif.Uint32()
+		}
+		c.isSKey = zzverif.Byte()
+		copy(c.flags[:], zzverif.Bytes(4))
+		na := zzverif.Choose(0, maxA)
+		for j := 0; j < na; j++ {
+			c.addrs = append(c.addrs, vhAddr{zzverif.Uint16(), zzverif.Bytes(zzverif.Choose(0, 1))})
+		}
+		nd := zzverif.Choose(0, maxA)
+		for j := 0; j < nd; j++ {
+			c.authdata = append(c.authdata, vhAddr{zzverif.Uint16(), zzverif.Bytes(1)})
+		}
+		c.ticket = zzverif.Bytes(tlen)
+		c.second = zzverif.Bytes(zzverif.Choose(0, 1))
+		creds = append(creds, c)
+		w.princ(c.client)
+		w.princ(c.server)
+		w.u16(c.keyType)
+		if ver == 3 {
+			w.u16(c.keyType) // version 3 repeats the encryption type
+		}
+		w.data(c.key)
+		for _, t := range c.times {
+			w.u32(t)
+		}
+		w.b = append(w.b, c.isSKey)
+		w.b = append(w.b, c.flags[:]...) // ticket flags are stored in big-endian bit order in all versions that gokrb5 reads as raw bytes
+		w.u32(uint32(len(c.addrs)))
+		for _, a := range c.addrs {
+			w.u16(a.typ)
+			w.data(a.data)
+		}
+		w.u32(uint32(len(c.authdata)))
+		for _, a := range c.authdata {
+			w.u16(a.typ)
+			w.data(a.data)
+		}
+		w.data(c.ticket)
+		w.data(c.second)
+	}
+	cc := new(CCache)
+	err := cc.Unmarshal(w.b)
+	zzverif.Assert("wellformed-file-parses", err == nil)
+	zzverif.Assert("version", int(cc.Version) == ver)
+	if ver == 4 {
+		zzverif.Assert("header-field-count", len(cc.Header.fields) == nhdr)
+		if nhdr > 0 {
+			zzverif.Assert("header-field", zzverif.All(cc.Header.fields[nhdr-1].tag == 1, cc.Header.fields[nhdr-1].length == 8, zzverif.EqBytes(cc.Header.fields[nhdr-1].value, offset)))
+		}
+	}
+	zzverif.Assert("default-principal", vhPrincEq(cc.DefaultPrincipal, def, ver))
+	zzverif.Assert("credential-count", len(cc.Credentials) == ncred)
+	for i, m := range creds {
+		c := cc.Credentials[i]
+		zzverif.Assert("client-principal", vhPrincEq(c.Client, m.client, ver))
+		zzverif.Assert("server-principal", vhPrincEq(c.Server, m.server, ver))
+		zzverif.Assert("key-type", c.Key.KeyType == int32(int16(m.keyType)))
+		zzverif.Assert("key-bytes", zzverif.EqBytes(c.Key.KeyValue, m.key))
+		zzverif.Assert("times", zzverif.All(c.AuthTime.Unix() == int64(int32(m.times[0])), c.StartTime.Unix() == int64(int32(m.times[1])), c.EndTime.Unix() == int64(int32(m.times[2])), c.RenewTill.Unix() == int64(int32(m.times[3]))))
+		zzverif.Assert("is-skey", c.IsSKey == (m.isSKey != 0))
+		zzverif.Assert("ticket-flags", zzverif.And(zzverif.EqBytes(c.TicketFlags.Bytes, m.flags[:]), c.TicketFlags.BitLength == 32))
+		zzverif.Assert("address-count", len(c.Addresses) == len(m.addrs))
+		for j, a := range m.addrs {
+			zzverif.Assert("address", zzverif.And(c.Addresses[j].AddrType == int32(int16(a.typ)), zzverif.EqBytes(c.Addresses[j].Address, a.data)))
+		}
+		zzverif.Assert("authdata-count", len(c.AuthData) == len(m.authdata))
+		for j, a := range m.authdata {
+			zzverif.Assert("authdata", zzverif.And(c.AuthData[j].ADType == int32(int16(a.typ)), zzverif.EqBytes(c.AuthData[j].ADData, a.data)))
+		}
+		zzverif.Assert("ticket-bytes", zzverif.EqBytes(c.Ticket, m.ticket))
+		zzverif.Assert("second-ticket-bytes", zzverif.EqBytes(c.SecondTicket, m.second))
+	}
+	zzverif.Reach("parsed")
+	// accessors
+	zzverif.Assert("client-realm-accessor", cc.GetClientRealm() == def.realm)
+	zzverif.Assert("client-name-accessor", len(cc.GetClientPrincipalName().NameString) == len(def.comps))
+	cr := cc.GetClientCredentials()
+	zzverif.Assert("client-credentials", zzverif.And(cr.Domain() == def.realm, len(cr.CName().NameString) == len(def.comps)))
+	// GetEntries drops exactly the configuration entries, keeps order
+	ents := cc.GetEntries()
+	want := 0
+	for i := range creds {
+		if i != conf-1 {
+			zzverif.Assert("entries-keeps-ordinary-credentials-in-order", want < len(ents) && ents[want] == cc.Credentials[i])
+			want++
+		}
+	}
+	zzverif.Assert("entries-drops-exactly-configuration-entries", len(ents) == want)
+	// parsing is not disturbed by the accessors
+	zzverif.Assert("credentials-unchanged-by-accessors", len(cc.Credentials) == ncred)
+	for i := range creds {
+		zzverif.Assert("credentials-unchanged-by-accessors", vhPrincEq(cc.Credentials[i].Server, creds[i].server, ver))
+	}
+	// GetEntry / Contains: the first credential whose server name equals the query
+	var q types.PrincipalName
+	q.NameType = int32(zzverif.Uint32())
+	nq := zzverif.Choose(0, maxC)
+	for i := 0; i < nq; i++ {
+		q.NameString = append(q.NameString, zzverif.String(slen))
+	}
+	got, found := cc.GetEntry(q)
+	first := -1
+	for i := len(creds) - 1; i >= 0; i-- {
+		if vhNameEq(cc.Credentials[i].Server.PrincipalName, q) {
+			first = i
+		}
+	}
+	zzverif.Assert("getentry-found-iff-some-server-name-equal", found == (first >= 0))
+	zzverif.Assert("contains-iff-some-server-name-equal", cc.Contains(q) == (first >= 0))
+	if first >= 0 {
+		zzverif.Assert("getentry-returns-first-match", got == cc.Credentials[first])
+	}
+	zzverif.Reach("done")
+}
+
+// RFC 4120 principal name equality as the library defines it (type and all components)
+func vhNameEq(a, b types.PrincipalName) bool {
+	if len(a.NameString) != len(b.NameString) {
+		return false
+	}
+	for i := range a.NameString {
+		if a.NameString[i] != b.NameString[i] {
+			return false
+		}
+	}
+	return true
 }
